@@ -184,19 +184,27 @@ where
                 *target.header_mut() = source.header();
 
                 let mut target = target.question();
+
+                // Neither the questions (a request may carry any number of
+                // them and responses echo them) nor the OPT record of the
+                // response (it may carry options, e.g. padding, NSID, a
+                // cookie) may take the truncated response over the very
+                // limit being enforced: a push fails as soon as the message
+                // would no longer be shorter than the push limit, hence the
+                // + 1. Questions that do not fit are left out, TC is set. If
+                // the complete OPT record does not fit, the code below falls
+                // back to one without options.
+                target.set_push_limit(max_response_size + 1);
+
                 for rr in source.question() {
-                    target.push(rr?)?;
+                    match target.push(rr?) {
+                        Ok(()) => {}
+                        Err(PushError::LimitExceeded) => break,
+                        Err(err) => return Err(err.into()),
+                    }
                 }
 
                 let mut target = target.additional();
-
-                // The OPT record of the response may carry options (e.g.
-                // padding, NSID, a cookie). Don't let it take the truncated
-                // response over the very limit being enforced: a push fails
-                // as soon as the message would no longer be shorter than the
-                // push limit, hence the + 1. If the complete OPT record does
-                // not fit, the code below falls back to one without options.
-                target.set_push_limit(max_response_size + 1);
 
                 if let Some(opt) = source.opt() {
                     if let Err(err) = target.push(opt.as_record()) {
